@@ -1,6 +1,7 @@
 From Coq Require Import List NArith Bool.
 From V.C10 Require Import Model.
 From V.Mgr Require Import DialShape DialShapeProofs Model Caps Ledger LedgerInv.
+From V.Tcp Require Model Proofs Theorems.
 Import ListNotations.
 Open Scope N_scope.
 From V.C05 Require Import Properties.
@@ -86,3 +87,93 @@ Check (C05_stuck_only_on_inconsistent_ids :
   In (Stuck s) (snd (step L m e)) ->
   (exists c f, e = TrOpened c f /\ lookup c (pending m) = None) \/
   (exists p c l f q, e = TrEstablished p c l f /\ lookup c (pending m) = Some q /\ q <> p)).
+Check (C05_tcp_open_phase_owed :
+  forall s g e o1 t o2,
+  Tcp.Theorems.reachU s g -> snd (Tcp.Model.step s e) = o1 ++ Tcp.Model.OEv t :: o2 ->
+  match t with
+  | Tcp.Model.TOpened c | Tcp.Model.TOpenFailure c => In c (Tcp.Model.g_open (fold_left Tcp.Model.gout o1 (Tcp.Model.gcall e (snd (Tcp.Model.step s e)) g)))
+  | _ => True
+  end).
+Check (C05_tcp_owed_open_ledger :
+  (forall e os g c, In c (Tcp.Model.g_open (Tcp.Model.gstep e os g)) -> In c (Tcp.Model.g_open g) \/ exists es, e = Tcp.Model.EOpen c es) /\
+  (forall os g c, ~ In c (Tcp.Model.g_open (Tcp.Model.gstep (Tcp.Model.ECancel c) os g))) /\
+  (forall c g, ~ In c (Tcp.Model.g_open (Tcp.Model.gev (Tcp.Model.TOpened c) g)) /\ ~ In c (Tcp.Model.g_open (Tcp.Model.gev (Tcp.Model.TOpenFailure c) g)))).
+Check (C05_tcp_call_results :
+  forall s g e, Tcp.Theorems.reachU s g -> Tcp.Model.call_ok e g (snd (Tcp.Model.step s e)) = true).
+Check (C05_tcp_negotiate_after_opened :
+  forall s g e c,
+  Tcp.Theorems.reachU s g -> In (Tcp.Model.OEv (Tcp.Model.TOpened c)) (snd (Tcp.Model.step s e)) ->
+  let s1 := fst (Tcp.Model.step s e) in
+  snd (Tcp.Model.step s1 (Tcp.Model.ENegotiate c)) = [Tcp.Model.ORet true] /\
+  snd (Tcp.Model.step (fst (Tcp.Model.step s1 (Tcp.Model.ECancel c))) (Tcp.Model.ENegotiate c)) = [Tcp.Model.ORet true]).
+Check (C05_tcp_contract :
+  forall s g e o1 t o2,
+  Tcp.Theorems.reach s g -> Tcp.Model.caller_ok g e = true -> snd (Tcp.Model.step s e) = o1 ++ Tcp.Model.OEv t :: o2 ->
+  Tcp.Model.tfeas (fold_left Tcp.Model.gout o1 (Tcp.Model.gcall e (snd (Tcp.Model.step s e)) g)) t = true).
+Check (C05_tcp_established_names_dialled_peer :
+  forall s g e o1 c q o2,
+  Tcp.Theorems.reach s g -> Tcp.Model.caller_ok g e = true -> snd (Tcp.Model.step s e) = o1 ++ Tcp.Model.OEv (Tcp.Model.TEstablished c q false) :: o2 ->
+  let g' := fold_left Tcp.Model.gout o1 (Tcp.Model.gcall e (snd (Tcp.Model.step s e)) g) in
+  In c (Tcp.Model.g_neg g') /\
+  exists es, Tcp.Model.lookup c (Tcp.Model.g_att g') = Some es /\ (exists x, In x es /\ Tcp.Model.matches x q = true) /\
+             forall p, (forall x, In x es -> x = Some p) -> q = p).
+Check (C05_tcp_named_by_call :
+  forall e os g c,
+  Tcp.Model.lookup c (Tcp.Model.g_att (Tcp.Model.gstep e os g)) =
+  match e with
+  | Tcp.Model.EDial c' _ ex => if (c' =? c) && Tcp.Model.ret_ok os then Some [ex] else Tcp.Model.lookup c (Tcp.Model.g_att g)
+  | Tcp.Model.EOpen c' es => if c' =? c then Some es else Tcp.Model.lookup c (Tcp.Model.g_att g)
+  | _ => Tcp.Model.lookup c (Tcp.Model.g_att g)
+  end).
+Check (C05_tcp_no_dropped_answer :
+  forall s g e m,
+  Tcp.Theorems.reach s g -> Tcp.Model.caller_ok g e = true -> In (Tcp.Model.OMark m) (snd (Tcp.Model.step s e)) ->
+  exists c, m = Tcp.Model.MSilentFailure c Tcp.Model.KInb).
+Check (C05_tcp_owed_is_pending :
+  forall s g c,
+  Tcp.Theorems.reach s g ->
+  (In c (Tcp.Model.g_open g) -> exists f rem, Tcp.Model.lookup f (Tcp.Model.praw s) = Some c /\ Tcp.Model.lookup f (Tcp.Model.attempts s) = Some rem /\
+                                    ~ In f (Tcp.Model.aborted s)) /\
+  (In c (Tcp.Model.g_neg g) -> exists f k, Tcp.Model.lookup f (Tcp.Model.pconn s) = Some (c, k) /\ Tcp.Model.is_inb k = false)).
+Check (C05_tcp_progress_open_answer :
+  forall s g f c rem i e q,
+  Tcp.Theorems.reach s g -> Tcp.Model.lookup f (Tcp.Model.praw s) = Some c -> In c (Tcp.Model.g_open g) ->
+  Tcp.Model.lookup f (Tcp.Model.attempts s) = Some rem -> Tcp.Model.lookup i rem = Some e -> Tcp.Model.matches e q = true ->
+  In (Tcp.Model.OEv (Tcp.Model.TOpened c)) (snd (Tcp.Model.step s (Tcp.Model.EAns f i (Some q))))).
+Check (C05_tcp_progress_open_last_failure :
+  forall s g f c rem i e ans,
+  Tcp.Theorems.reach s g -> Tcp.Model.lookup f (Tcp.Model.praw s) = Some c -> In c (Tcp.Model.g_open g) ->
+  Tcp.Model.lookup f (Tcp.Model.attempts s) = Some rem -> Tcp.Model.lookup i rem = Some e -> Tcp.Model.delk i rem = [] ->
+  (forall q, ans = Some q -> Tcp.Model.matches e q = false) ->
+  In (Tcp.Model.OEv (Tcp.Model.TOpenFailure c)) (snd (Tcp.Model.step s (Tcp.Model.EAns f i ans)))).
+Check (C05_tcp_progress_open_expire :
+  forall s g f c rem,
+  Tcp.Theorems.reach s g -> Tcp.Model.lookup f (Tcp.Model.praw s) = Some c -> In c (Tcp.Model.g_open g) ->
+  Tcp.Model.lookup f (Tcp.Model.attempts s) = Some rem -> rem <> [] ->
+  In (Tcp.Model.OEv (Tcp.Model.TOpenFailure c)) (snd (Tcp.Model.step s (Tcp.Model.EExpire f)))).
+Check (C05_tcp_progress_open_no_address :
+  forall s g f c e,
+  Tcp.Theorems.reach s g -> Tcp.Model.lookup f (Tcp.Model.praw s) = Some c -> In c (Tcp.Model.g_open g) -> Tcp.Model.lookup f (Tcp.Model.attempts s) = Some [] ->
+  Tcp.Model.polls e = true -> In (Tcp.Model.OEv (Tcp.Model.TOpenFailure c)) (snd (Tcp.Model.step s e))).
+Check (C05_tcp_progress_dial :
+  forall s g f c i ans,
+  Tcp.Theorems.reach s g -> Tcp.Model.lookup f (Tcp.Model.pconn s) = Some (c, Tcp.Model.KDial) ->
+  exists x, Tcp.Model.lookup c (Tcp.Model.g_att g) = Some [x] /\
+    In (Tcp.Model.OEv (match ans with
+             | Some q => if Tcp.Model.matches x q then Tcp.Model.TEstablished c q false else Tcp.Model.TDialFailure c
+             | None => Tcp.Model.TDialFailure c
+             end)) (snd (Tcp.Model.step s (Tcp.Model.EAns f i ans)))).
+Check (C05_tcp_progress_negotiate :
+  forall s g f c e,
+  Tcp.Theorems.reach s g -> Tcp.Model.lookup f (Tcp.Model.pconn s) = Some (c, Tcp.Model.KNeg) -> Tcp.Model.polls e = true ->
+  exists q, In (Tcp.Model.OEv (Tcp.Model.TEstablished c q false)) (snd (Tcp.Model.step s e))).
+Check (C05_tcp_progress_inbound :
+  forall s g f c i q,
+  Tcp.Theorems.reach s g -> Tcp.Model.lookup f (Tcp.Model.pconn s) = Some (c, Tcp.Model.KInb) ->
+  In (Tcp.Model.OEv (Tcp.Model.TEstablished c q true)) (snd (Tcp.Model.step s (Tcp.Model.EAns f i (Some q))))).
+Check (C05_tcp_outbound_ids_from_owner :
+  forall s g c,
+  Tcp.Theorems.reachU s g -> In c (Tcp.Model.g_open g) \/ In c (Tcp.Model.g_neg g) \/ In c (Tcp.Model.g_opened g) -> In c (Tcp.Model.g_used g)).
+Check (C05_tcp_caller_ok_needed :
+  exists es, Tcp.Theorems.callers_ok Tcp.Model.init Tcp.Model.g0 es = false /\
+             In [Tcp.Model.OMark (Tcp.Model.MNoHandle 0)] (snd (Tcp.Theorems.run Tcp.Model.init es))).
